@@ -7,6 +7,7 @@ that stratification; (P3) compute_wp and the printing of verification conditions
 they implement: every command kind is handled in both, every list of conditions is turned into conditions,
 and each rule passes the right condition to the right sub-command."""
 import ast
+import re
 
 from ..core import RuleResult, need
 from ..cfg import cfg_of
@@ -561,9 +562,50 @@ def rule_p7(repo):
     return res
 
 
+def rule_p8(repo):
+    """If-then-else and forall conditions are printed with their operands bare: `if b then A else B`, `forall x. B` - the
+    printed operand can be any condition, an implication included, and the last one runs as far to the right as the text
+    goes (Op.__str__ brackets a whole if / forall operand for that reason).  The grammar must read them the same way:
+    in the production for such a form every operand is the widest condition level.  A narrower last operand (`neg`) makes
+    `if b then A else B | C` read as `(if b then A else B) | C`: the verification condition computed for a conditional
+    statement is re-read as a weaker formula."""
+    res = RuleResult('C20.P8', 'a keyword form printed with bare operands is read with every operand at the widest level', floor=2)
+    m = repo.module(EXPR)
+    # printer: classes whose __str__ is one format string with bare %s operands, keyed by their keywords
+    forms = {}
+    for c in m.classes.values():
+        f = c.methods.get('__str__')
+        if f is None:
+            continue
+        rets = [r for r in ast.walk(f.node) if isinstance(r, ast.Return)]
+        if len(rets) != 1 or not (isinstance(rets[0].value, ast.BinOp) and isinstance(rets[0].value.op, ast.Mod) and
+                                  isinstance(rets[0].value.left, ast.Constant) and isinstance(rets[0].value.left.value, str)):
+            continue
+        fmt = rets[0].value.left.value
+        words = re.findall(r'[a-z]+', fmt.replace('%s', ' '))
+        if words and fmt.strip().startswith(words[0]) and '(' not in fmt:
+            forms[tuple(words)] = (c.name, fmt, f)
+    need(forms, 'imperative/expr.py: no keyword form with bare operands found (if-then-else / forall)')
+    text = grammar_text(repo.module(PARSER))
+    lad = Ladder(text, 'cond')
+    top = lad.order[-1]
+    for p in lad.productions:
+        kws = tuple(lad.token(sname) for sname, is_t in p.symbols if is_t and (lad.token(sname) or '').isalpha())
+        if not kws or kws not in forms or not p.symbols[0][1]:
+            continue
+        cname, fmt, f = forms[kws]
+        operands = [sname for sname, is_t in p.symbols if not is_t]
+        narrow = [o for o in operands if o in lad.level and o != top]
+        res.add('%s :: production(%s) :: operands-as-wide-as-printed' % (PARSER, ' '.join(kws)), not narrow,
+                'every condition operand is read at level `%s`; %s prints them bare ("%s")' % (top, cname, fmt) if not narrow else
+                'the production reads an operand at level `%s`, but %s.__str__ prints every operand bare ("%s"): a compound operand in that place is '
+                'cut short on re-reading - `if b then A else B | C` comes back as `(if b then A else B) | C`' % (narrow[0], cname, fmt), '%s:1' % PARSER)
+    return res
+
+
 def rules(repo):
     p1 = rule_p1(repo)
     if any(not i.ok for i in p1.instances):
         # with an ambiguous grammar there is no nesting for the printer's brackets to agree with
-        return [p1, rule_p3(repo), rule_p4(repo), rule_p5(repo), rule_p6(repo), rule_p7(repo)]
-    return [p1, rule_p2(repo), rule_p3(repo), rule_p4(repo), rule_p5(repo), rule_p6(repo), rule_p7(repo)]
+        return [p1, rule_p3(repo), rule_p4(repo), rule_p5(repo), rule_p6(repo), rule_p7(repo), rule_p8(repo)]
+    return [p1, rule_p2(repo), rule_p3(repo), rule_p4(repo), rule_p5(repo), rule_p6(repo), rule_p7(repo), rule_p8(repo)]
